@@ -332,6 +332,22 @@ pub fn run(ctx: &Ctx) -> Report {
     if r["scenario"] == "adversarial" {
       let a = adversarial(r["thorough"].as_bool().unwrap_or(false));
       run_adversarial(&a, &config_set(true), &mut e);
+    } else if let Some(tag) = r["scenario"].as_str() {
+      let th = r["thorough"].as_bool().unwrap_or(false);
+      let sc = if tag == "mint-matrix" { super::runes_batch::mint_matrix(th) } else { super::runes_batch::allocation_product(th) };
+      e = super::runes_batch::run_scenario(&sc, &runes::cfg(), 0, tag);
+    } else if let Some(name) = r["dense"].as_str() {
+      e = match r["suite"].as_str().unwrap_or("") {
+        "sats-dense" => exec_sats(&mut sats::Worker::new(0, 3), &config_set(true), &sats::dense_choices(sats::DENSE.iter().find(|(n, _)| *n == name).expect("dense").1)),
+        "runes-dense" => {
+          let spec = runes::DENSE.iter().find(|(n, _)| *n == name).expect("dense").1;
+          exec_runes(&mut runes::Worker::new(0), &config_set(true), &runes::dense_layout(spec.len()), &runes::dense_choices(spec))
+        }
+        _ => {
+          let spec = inscriptions::DENSE.iter().find(|(n, _)| *n == name).expect("dense").1;
+          exec_insc(&mut inscriptions::Worker::new(0, "regtest", 10), &config_set(true), &inscriptions::dense_layout(spec.len()), &inscriptions::dense_choices(spec))
+        }
+      };
     } else {
       let choices: Choices = r["choices"].as_array().unwrap().iter().map(|x| x.as_u64().unwrap() as u8).collect();
       e = match r["suite"].as_str().unwrap_or("") {
@@ -421,6 +437,70 @@ pub fn run(ctx: &Ctx) -> Report {
       exhaustive = false;
     }
   }
+  // (c) the dense multi-deviation families of the three suites under every configuration
+  {
+    enum Job {
+      Sats(usize),
+      Insc(usize),
+      Runes(usize),
+    }
+    let mut jobs: Vec<Job> = Vec::new();
+    jobs.extend((0..sats::DENSE.len()).map(Job::Sats));
+    jobs.extend((0..inscriptions::DENSE.len()).map(Job::Insc));
+    jobs.extend((0..runes::DENSE.len()).map(Job::Runes));
+    let (results, _) = util::par_map(
+      jobs.len(),
+      None,
+      |id| id,
+      |id, i| {
+        util::catch(|| match jobs[i] {
+          Job::Sats(d) => ("sats", sats::DENSE[d].0, exec_sats(&mut sats::Worker::new(700 + *id, 3), &cfgs, &sats::dense_choices(sats::DENSE[d].1))),
+          Job::Insc(d) => {
+            let spec = inscriptions::DENSE[d].1;
+            ("inscriptions", inscriptions::DENSE[d].0, exec_insc(&mut inscriptions::Worker::new(700 + *id, "regtest", 10), &cfgs, &inscriptions::dense_layout(spec.len()), &inscriptions::dense_choices(spec)))
+          }
+          Job::Runes(d) => {
+            let spec = runes::DENSE[d].1;
+            ("runes", runes::DENSE[d].0, exec_runes(&mut runes::Worker::new(700 + *id), &cfgs, &runes::dense_layout(spec.len()), &runes::dense_choices(spec)))
+          }
+        })
+      },
+    );
+    let mut n = 0u64;
+    for r in results.into_iter().flatten() {
+      match r {
+        Ok((suite, name, e)) => {
+          if e.disabled {
+            report.violation("machinery/dense-disabled", format!("dense history {suite}/{name} cannot be built"), json!({}));
+            continue;
+          }
+          n += 1;
+          report.add("transitions", e.blocks);
+          all_states.extend(e.states.iter().cloned());
+          for (p, c, what) in &e.violations {
+            if p == property {
+              report.violation(format!("{c}/dense"), format!("[{suite}/{name}] {what}"), json!({"suite": format!("{suite}-dense"), "dense": name}));
+            }
+          }
+        }
+        Err(p) => report.violation("machinery/harness-panic", format!("dense family: {p}"), json!({})),
+      }
+    }
+    traces += n;
+    report.set("dense.executions", n);
+  }
+  // (d) the batched rune scenarios (mint matrix with terms at the ends of the integer range, allocation product)
+  for (tag, sc) in [("mint-matrix", super::runes_batch::mint_matrix(ctx.thorough())), ("allocation-product", super::runes_batch::allocation_product(ctx.thorough()))] {
+    let ex = super::runes_batch::run_scenario(&sc, &runes::cfg(), sc.blocks.len().saturating_sub(8), tag);
+    for (p, c, what) in &ex.violations {
+      if p == property {
+        report.violation(format!("{c}/batched-{tag}"), what.clone(), json!({"scenario": tag, "thorough": ctx.thorough()}));
+      }
+    }
+    report.add("evaluations", sc.decided_cases);
+    report.add("transitions", ex.blocks);
+    traces += 1;
+  }
   report.set("configurations", json!(cfgs.iter().map(|c| c.label()).collect::<Vec<_>>()));
   report.set("states", all_states.len().max(1) as u64);
   report.set("traces_validated_against_impl", traces);
@@ -430,6 +510,7 @@ pub fn run(ctx: &Ctx) -> Report {
   report.set(
     "rule",
     "(a) every history with <=K deviations of the sat, inscription and rune suites (2 blocks, full alphabets) is indexed under every listed combination of index options; \
+     (c) the dense multi-deviation families of the three suites under every configuration; (d) the batched rune scenarios (mint matrix with terms values 0 .. u64::MAX / u128::MAX, allocation product); \
      (b) one adversarial batch of independent transactions covering every short tapscript / opcode sequence / runestone byte string / varint sequence (see adversarial.description). \
      Oracle: Index::update returns Ok and does not panic, status and rune queries do not panic. distinct_nontrivial = adversarial transactions (distinct by construction) + executed histories; states = distinct (configuration, blocks indexed) pairs",
   );
